@@ -14,6 +14,9 @@ r4missed=len(r4)-r4first
 r5=[x['seed'] for x in r if re.search(r'-1[3-5]$', x['seed'])]
 r5first=sum(1 for k in r5 if init.get(k,'').startswith('caught'))
 r5missed=len(r5)-r5first
+r6=[x['seed'] for x in r if re.search(r'-1[67]$', x['seed'])]
+r6first=sum(1 for k in r6 if init.get(k,'').startswith('caught'))
+r6missed=len(r6)-r6first
 rows=[]
 for x in r:
     rb='; '.join(sorted(set(y.split(' ')[1] for y in x.get('reported_by',[]) if y.startswith('report['))))
@@ -52,6 +55,22 @@ shape of the data (empty and one-element lists, duplicates, non-ASCII text,
 very long lines, zero values): {r5first} of 60 were reported on first contact,
 {r5missed} were missed and closed the same way; one more defect of pint itself
 came out of the agents' reading (F44).
+A sixth, smaller round (seeds 16–17, two per property, same brief as the
+fifth, against the checks as they stood after it and after the third corpus of
+harmless refactorings) gave {len(r6)} more: {r6first} were reported on first contact,
+{r6missed} were missed (one of them, C02-17, is the same change as C06-17 and was
+reported by the rule added for that one a few minutes earlier; it is counted as
+a miss). Each miss was closed by a general rule on the same day: nothing
+else is produced for a file excluded by `ignore/file`; no HTTP client deadline
+besides the request context; the parsing packages keep no package-level state;
+values stored under `CommandKey` are typed; line-range literals take both ends
+from the same object; shared objects remember nothing in atomic fields; both
+texts of every change are read; every cache clean-up walks every entry; the
+`isEnabled` table is shared with C16; `List` skips by kind and author only and
+`IsEqual` stores nothing; the invalid-duration problem stands under the parse
+error alone; one pattern per compiled expression; no severity is compared with
+the literal 0; label sets of returned series come from a sorting constructor;
+the request context derives from the caller's.
 I kept a change only after confirming in a scratch worktree
 (`tools/confirm_seed.sh`, network-less namespace): it builds, the unedited
 suite passes with it, the demo fails with it and passes without. Each is stored
